@@ -117,6 +117,14 @@ func c12Pool(r *rand.Rand, n int) []c12Item {
 			return []bexpr.Option{bexpr.WithLocalVariable("unused1", nil, 1), bexpr.WithLocalVariable("unused2", nil, 2), bexpr.WithLocalVariable("unused3", nil, 3), bexpr.WithLocalVariable("unused4", nil, 4), bexpr.WithLocalVariable("unused5", nil, 5), bexpr.WithUnknownValue("u")}
 		}, data: fixed, descr: "preset-locals+quantifier"},
 	)
+	// evaluators created from 5, 7 and 9 options (nil entries and repeats count)
+	for _, no := range []int{5, 7, 9, 6} {
+		no := no
+		pool = append(pool, c12Item{text: `(any objs as o { o.name matches "^db" and (any o.tags as t { t == "c" }) }) and zz == u`, opts: func() []bexpr.Option {
+			l := []bexpr.Option{bexpr.WithUnknownValue("x"), nil, bexpr.WithTagName("alt"), bexpr.WithHookFn(hookIdentity{}.Real()), bexpr.WithTagName("bexpr"), nil, bexpr.WithMaxExpressions(0), bexpr.WithUnknownValue("y"), bexpr.WithUnknownValue("u")}
+			return append(l[len(l)-no:len(l)-1:len(l)-1], bexpr.WithUnknownValue("u"))
+		}, data: fixed, descr: "many-options+quantifier"})
+	}
 	// datum-directed random ones
 	for len(pool) < n {
 		doc := univ.GenObj(r, 4, true)
@@ -468,6 +476,19 @@ func c12ManyPatterns(c *mon.Ctx) {
 				case 3:
 					text = fmt.Sprintf(`"%s" in l and (any l as v { v matches "^%s$" })`, name, name)
 				}
+				// an INVALID expression created concurrently: its error is its own
+				bad := fmt.Sprintf(`x == "%s\q" and y%d ==`, name, j)
+				if _, berr, bpan, _ := createEval(bad); bpan != "" || berr == nil {
+					fails[gi] = "create " + bad + ": no error / panic " + bpan
+					return
+				} else {
+					msg := berr.Error()
+					runtime.Gosched()
+					if _, serr, _, _ := createEval(bad); serr == nil || msg != berr.Error() || !strings.Contains(msg, "invalid syntax") && !strings.Contains(msg, "no match") {
+						fails[gi] = fmt.Sprintf("the error of %q changed after it was returned: %q then %q", bad, msg, berr.Error())
+						return
+					}
+				}
 				ev, err, pan, _ := createEval(text)
 				if pan != "" || err != nil || ev == nil {
 					fails[gi] = "create " + text + ": " + fmt.Sprint(err) + pan
@@ -788,7 +809,7 @@ func init() {
 		SingleProcess: true,
 		Extra:         map[string]any{"race": true},
 		Required: func(tier string) []string {
-			return []string{"evaluators_shared", "cold_start_concurrent_creations", "shared_filter_over_mixed_container_types", "fresh_type_first_sight_rounds", "growing_list_rounds", "many_pattern_rounds", "shared_option_slice_rounds", "long_chain_shared_rounds", "evaluator_kind:preset-locals+quantifier", "evaluator_kind:unknown+quantifier", "evaluator_kind:unknown+hook+quantifier", "concurrent_calls", "overlapping_call_pairs", "evaluators_with_overlapping_first_calls", "race_log_inspected", "evaluator_kind:fixed", "evaluator_kind:random", "evaluator_kind:hook-gosched", "evaluator_kind:unknown", "evaluator_kind:tag"}
+			return []string{"evaluators_shared", "cold_start_concurrent_creations", "shared_filter_over_mixed_container_types", "fresh_type_first_sight_rounds", "growing_list_rounds", "many_pattern_rounds", "shared_option_slice_rounds", "long_chain_shared_rounds", "evaluator_kind:preset-locals+quantifier", "evaluator_kind:many-options+quantifier", "evaluator_kind:unknown+quantifier", "evaluator_kind:unknown+hook+quantifier", "concurrent_calls", "overlapping_call_pairs", "evaluators_with_overlapping_first_calls", "race_log_inspected", "evaluator_kind:fixed", "evaluator_kind:random", "evaluator_kind:hook-gosched", "evaluator_kind:unknown", "evaluator_kind:tag"}
 		},
 		Post: func(a *mon.Agg) {
 			if a.Counters["harness_only_race_blocks"] > 0 {
